@@ -544,6 +544,9 @@ where
     
     /// Get a value by key, updating its position in the LRU list
     pub fn get(&self, key: &K) -> Option<V> {
+        // Lock order is always hash_map -> nodes -> free_nodes. The map lock is held
+        // until the node has been read, so the slot cannot be evicted and recycled for
+        // another key between the lookup and the access.
         let hash_map = self.hash_map.read().ok()?;
         let node_idx = match hash_map.get(key) {
             Some(&idx) => idx,
@@ -554,7 +557,6 @@ where
                 return None;
             }
         };
-        drop(hash_map);
         
         let mut nodes = self.nodes.write().ok()?;
         if (node_idx as usize) >= nodes.len() || !nodes[node_idx as usize].is_valid {
@@ -577,9 +579,13 @@ where
     pub fn put(&self, key: K, value: V) -> Result<Option<V>> {
         let hash = self.hash_key(&key);
         
+        // The map lock is held for the whole operation: lookup, eviction and insertion
+        // must be one atomic step, otherwise two threads inserting the same new key both
+        // allocate a node (the key then occupies several LRU slots).
+        let mut hash_map = self.hash_map.write().map_err(|_| ZiporaError::out_of_memory(0))?;
+        
         // Check if key already exists
         {
-            let hash_map = self.hash_map.read().map_err(|_| ZiporaError::out_of_memory(0))?;
             if let Some(&node_idx) = hash_map.get(&key) {
                 // Update existing entry
                 let mut nodes = self.nodes.write().map_err(|_| ZiporaError::out_of_memory(0))?;
@@ -598,7 +604,7 @@ where
         
         // Check if we need to evict before allocating
         if self.lru_list.len() >= self.config.capacity {
-            self.evict_lru()?;
+            self.evict_lru(&mut hash_map)?;
         }
         
         // Now allocate new entry (should have space after eviction)
@@ -612,10 +618,7 @@ where
         }
         
         // Add to hash map
-        {
-            let mut hash_map = self.hash_map.write().map_err(|_| ZiporaError::out_of_memory(0))?;
-            hash_map.insert(key, node_idx);
-        }
+        hash_map.insert(key, node_idx);
         
         if self.config.enable_statistics {
             self.stats.record_put();
@@ -629,7 +632,6 @@ where
     pub fn remove(&self, key: &K) -> Option<V> {
         let mut hash_map = self.hash_map.write().ok()?;
         let node_idx = hash_map.remove(key)?;
-        drop(hash_map);
         
         let mut nodes = self.nodes.write().ok()?;
         if (node_idx as usize) >= nodes.len() || !nodes[node_idx as usize].is_valid {
@@ -686,13 +688,14 @@ where
         
         hash_map.clear();
         
-        // Reset all nodes and add to free list
+        // Reset all nodes and rebuild the free list with *every* slot: slots that were
+        // already free must stay allocatable, otherwise capacity shrinks on each clear()
         free_nodes.clear();
         for (i, node) in nodes.iter_mut().enumerate() {
             if node.is_valid {
                 node.reset();
-                free_nodes.push(i as u32);
             }
+            free_nodes.push(i as u32);
         }
         
         // Reset LRU list
@@ -738,7 +741,7 @@ where
     }
     
     /// Evict the least recently used entry
-    fn evict_lru(&self) -> Result<()> {
+    fn evict_lru(&self, hash_map: &mut HashMap<K, u32>) -> Result<()> {
         let lru_node_idx = self.lru_list.get_lru_node();
         if lru_node_idx == INVALID_NODE {
             return Err(ZiporaError::out_of_memory(0).into());
@@ -757,11 +760,8 @@ where
         // Call eviction callback
         self.eviction_callback.on_evict(&key, &value);
         
-        // Remove from hash map
-        {
-            let mut hash_map = self.hash_map.write().map_err(|_| ZiporaError::out_of_memory(0))?;
-            hash_map.remove(&key);
-        }
+        // Remove from hash map (locked by the caller)
+        hash_map.remove(&key);
         
         // Remove from LRU list
         self.lru_list.remove(&mut nodes, lru_node_idx);
